@@ -2,7 +2,7 @@ SPECIFICATION TSpec
 CONSTANTS MaxSize = 4194304
           MaxK = 4194304
           Slack = 2
-INVARIANTS TypeOK DeliveredInsideFile NoSilentShortRead FullReadNoEof EofOnlyAtEnd ErrLeavesPosition
+INVARIANTS TypeOK DeliveredInsideFile NoSilentShortRead FullReadNoEof EofOnlyAtEnd ErrLeavesPosition CtxErrOnlyOwnCall
 CONSTRAINT TraceConstraint
 POSTCONDITION TracePost
 CHECK_DEADLOCK FALSE
